@@ -107,6 +107,8 @@ class NDInterp(Interp):
         s.ghost = {}
         m = s.np.members
         m['full'] = Builtin('np.full', s.np_full)
+        old_allclose = m['allclose']
+        m['allclose'] = Builtin('np.allclose', lambda a, k: s.np_allclose(a, k, old_allclose))
         m['zeros_like'] = Builtin('np.zeros_like', lambda a, k: s.like(a[0], 0.0 if k.get('dtype') is None else 0, k))
         m['ones_like'] = Builtin('np.ones_like', lambda a, k: s.like(a[0], 1.0 if k.get('dtype') is None else 1, k))
         m['empty'] = Builtin('np.empty', lambda a, k: s.np_full([a[0], 0.0], k))
@@ -352,7 +354,9 @@ class NDInterp(Interp):
         if op == '**':
             return s.map2(lambda x, y: s.uf_app('power', x, y), a, b)
         if op == '/':
-            return s.map2(s.cell_div, a, b)
+            # true division: the quotient of integer (Boolean) arrays is a floating array
+            dt = s.result_dtype(a, b)
+            return s.map2(s.cell_div, a, b, dtype=dt if dt in ('float', 'complex') else 'float')
         return s.map2(lambda x, y: s.arith(op, x, y), a, b)
 
     def cell_div(s, x, y):
@@ -1241,8 +1245,46 @@ class NDInterp(Interp):
             return r
         return s.fresh_buf([tot], get, s.result_dtype(*arrs) if arrs else 'float', 'concatenate')
 
+    def np_allclose(s, a, k, plain):
+        """np.allclose = every entry of np.isclose.  Arrays of concrete shape: the finite conjunction.  Symbolic shape: the
+        universally quantified statement over the index box (the body must be side-effect free: plain reads and arithmetic)"""
+        r = plain.f(a, k)
+        if not isinstance(r, NDArr):
+            return r
+        shape = [s.pyscalar(d) for d in r.shape]
+        if all(isinstance(d, int) for d in shape):
+            tot = 1
+            for d in shape:
+                tot *= d
+            if tot <= 256:
+                import itertools
+                acc = True
+                for idx in itertools.product(*[range(d) for d in shape]):
+                    acc = s.and_(acc, s.asbool(r.at(s, list(idx))))
+                return acc
+        qs = [s.fresh('q', 'int') for _ in shape]
+        npc = len(s.pc)
+        body = s.asbool(r.at(s, qs))
+        if len(s.pc) != npc:
+            raise Unsupported('np.allclose over a symbolic shape: the element test has side conditions')
+        if isinstance(body, bool):
+            return body
+        box = z3.And(*[z3.And(q.t >= 0, q.t < I(d)) for q, d in zip(qs, shape)])
+        return Sym(z3.ForAll([q.t for q in qs], z3.Implies(box, B(body))), 'bool', False)
+
     def mask_store(s, o, mask, rhs):
-        """o[mask] = rhs for a 1-d array o and a mask with concrete entries: the k-th True position receives rhs[k]"""
+        """o[mask] = rhs for a 1-d array o and a mask with concrete entries: the k-th True position receives rhs[k];
+        o[mask] = <one number> for a whole array o and a (symbolic) mask of the same shape: element-wise choice"""
+        rs0, gr0 = s.as_operand(rhs)
+        if len(rs0) == 0 and isinstance(mask, NDArr) and o.is_whole() and len(mask.shape) == len(o.shape) \
+                and all(dim_eq(s, p, q_) is True for p, q_ in zip(mask.shape, o.shape)) and s.concrete_mask(mask) is None:
+            old0 = o.buf.get
+            conv0 = {'bool': s.asbool, 'int': s.trunc_int, 'float': s.to_float, 'complex': (lambda x: x)}[o.buf.dtype]
+            val0 = conv0(gr0([]))
+            mk = mask.frozen()
+            o.buf.get = lambda b: s.ite(mk.at(s, list(b)), val0, old0(b))
+            o.buf.version += 1
+            return
         m = s.concrete_mask(mask)
         if m is None or not o.is_whole() or len(o.shape) != 1:
             raise Unsupported('Boolean-mask store with symbolic mask entries')
